@@ -489,6 +489,76 @@ def run(ctx):
             viol("subset|given-order", "subset(%s) of %s: atoms %s, numpy indexing of the atom list gives %s" % (idx, ienc(it), got, want), dict(top=ienc(it), keep=idx))
         if m is not None and m != got_text:
             ctx.broke("correspondence:subset-list", "top %s idx %s: impl %s model %s" % (ienc(it), idx, got_text, m))
+    # ---- editing: insert_atom(index=, rindex=) and delete_atom_by_index on topologies whose residues hold atoms of the same name and
+    # element (two virtual sites "M", repeated ligand names): a plain-data shadow says what the topology must be after every edit; copies
+    # of the edited topology compare equal to it and keep the order of the atoms inside each residue
+    E_ = md.element
+    for k in range(ctx.n(40, 300)):
+        top = md.Topology()
+        shadow, resorder, sbonds = [], {}, []      # atoms by index: [uid, name, elem]; residue -> [uid] in residue order; bonds (uid, uid)
+        uid = 0
+        handles = {}
+        residues_ = []
+        for ci in range(rng.choice([1, 2])):
+            ch = top.add_chain()
+            for ri in range(rng.randrange(1, 4)):
+                r = top.add_residue(rng.choice(["LIG", "HOH", "ALA"]), ch, ri + 1)
+                residues_.append(r); resorder[id(r)] = []
+                for ai in range(rng.randrange(1, 5)):
+                    nm = rng.choice(["M", "M", "H", "H", "C1", "O"])
+                    a = top.add_atom(nm, E_.virtual if nm == "M" else E_.get_by_symbol(nm[0]), r)
+                    shadow.append([uid, nm, id(r)]); resorder[id(r)].append(uid); handles[uid] = a; uid += 1
+        ids_ = [x[0] for x in shadow]
+        for _ in range(rng.randrange(0, len(ids_) + 2)):
+            if len(ids_) >= 2:
+                u, v = rng.sample(ids_, 2)
+                if (u, v) not in sbonds and (v, u) not in sbonds:
+                    top.add_bond(handles[u], handles[v]); sbonds.append((u, v))
+        log = []
+        bad = None
+        for step in range(rng.randrange(1, 6)):
+            n = len(shadow)
+            if n and rng.random() < 0.6:
+                i = rng.randrange(n)
+                top.delete_atom_by_index(i); log.append("delete %d" % i)
+                u = shadow.pop(i)[0]
+                for lst in resorder.values():
+                    if u in lst:
+                        lst.remove(u)
+                sbonds = [b for b in sbonds if u not in b]
+            else:
+                r = rng.choice(residues_)
+                i = rng.randrange(n + 1); ri_ = rng.randrange(len(resorder[id(r)]) + 1)
+                nm = rng.choice(["M", "H", "C1"])
+                a = top.insert_atom(nm, E_.virtual if nm == "M" else E_.get_by_symbol(nm[0]), r, index=i, rindex=ri_); log.append("insert %s at %d (place %d of its residue)" % (nm, i, ri_))
+                shadow.insert(i, [uid, nm, id(r)]); resorder[id(r)].insert(ri_, uid); handles[uid] = a; uid += 1
+            pos = {x[0]: j for j, x in enumerate(shadow)}
+            want_atoms = [(x[1], x[2]) for x in shadow]
+            got_atoms = [(top.atom(j).name, id(top.atom(j).residue)) for j in range(top.n_atoms)] if top.n_atoms == len(shadow) else None
+            want_res = [[pos[u] for u in resorder[id(r)]] for r in residues_]
+            got_res = [[a.index for a in r.atoms] for r in residues_]
+            want_b = sorted((min(pos[u], pos[v]), max(pos[u], pos[v])) for u, v in sbonds)
+            got_b = sorted((min(b[0].index, b[1].index), max(b[0].index, b[1].index)) for b in top.bonds)
+            if got_atoms != want_atoms or got_res != want_res or got_b != want_b or [top.atom(j).index for j in range(top.n_atoms)] != list(range(top.n_atoms)):
+                bad = "after %s: atoms %s, atoms inside the residues %s, bonds %s; expected atoms %s, residues %s, bonds %s" % (
+                    "; ".join(log), None if got_atoms is None else [x[0] for x in got_atoms], got_res, got_b, [x[0] for x in want_atoms], want_res, want_b)
+                break
+        ctx.case(None, ("edit", k)); ctx.count("calls:edit histories (insert_atom / delete_atom_by_index)")
+        if bad:
+            viol("edit|shadow", "insert_atom / delete_atom_by_index: " + bad, dict(log=log))
+            continue
+        for name_, mk_ in (("copy", lambda t_: t_.copy()), ("deepcopy", pycopy.deepcopy), ("pickle", lambda t_: pickle.loads(pickle.dumps(t_))), ("subset(all)", lambda t_: t_.subset(range(t_.n_atoms))),
+                           ("Topology().join", lambda t_: md.Topology().join(t_) if t_.n_atoms else t_.copy())):
+            if name_ == "subset(all)" and any(r.n_atoms == 0 for r in top.residues):
+                continue            # subset drops the residues that keep no atom (c04_subset_no_empty)
+            try:
+                cp = mk_(top)
+            except Exception as e:  # noqa: BLE001
+                viol("edit|%s|raises" % name_, "%s of a topology edited by %s raised %s: %s" % (name_, "; ".join(log), type(e).__name__, e), dict(log=log))
+                continue
+            inner = lambda t_: [[a.index for a in r.atoms] for r in t_.residues]
+            if not (cp == top) or inner(cp) != inner(top):
+                viol("edit|%s|not-equal" % name_, "%s of a topology edited by %s: == source is %s, atoms inside the residues %s, in the source %s" % (name_, "; ".join(log), cp == top, inner(cp), inner(top)), dict(log=log))
     # .pdb: the file groups the atoms by residue; every atom must come back with its own coordinates
     for k in range(ctx.n(20, 150)):
         it = gen_itop(rng, pdb_safe=True)
